@@ -602,6 +602,15 @@ def transparent_calls():
     calls["Aggregate.build(mult=2)"] = (lambda cu: qr.Aggregate([qr.Molecule([0.0, cu(12000.0 * CM)]), qr.Molecule([0.0, cu(12200.0 * CM)])]),
                                        lambda ag, cu: (ag.set_resonance_coupling(0, 1, cu(100.0 * CM)), ag.build(mult=2), ag.get_Hamiltonian())[2])
 
+    def built_dimer(cu):
+        ag = qr.Aggregate([qr.Molecule([0.0, cu(12000.0 * CM)]), qr.Molecule([0.0, cu(12300.0 * CM)])])
+        ag.set_resonance_coupling(0, 1, cu(150.0 * CM))
+        ag.build(mult=2)
+        return ag
+    calls["Aggregate.get_electronic_Hamiltonian"] = (built_dimer, lambda ag, cu: ag.get_electronic_Hamiltonian())
+    calls["Aggregate.elstates energies read in the caller's loop"] = (
+        built_dimer, lambda ag, cu: numpy.array([float(qr.Manager().convert_energy_2_internal_u(st.energy())) for (_a, st) in ag.elstates(mult=2)]))
+
     def ham(cu):
         return qr.Hamiltonian(data=[[0.0, cu(100.0 * CM), 0.0], [cu(100.0 * CM), cu(12000.0 * CM), cu(10.0 * CM)], [0.0, cu(10.0 * CM), cu(12400.0 * CM)]])
     calls["Hamiltonian.set_rwa"] = (ham, lambda H, cu: (H.set_rwa([0, 1]), H)[1])
@@ -653,6 +662,9 @@ def run_transparency(chk, tier):
             for inside in (False, True):
                 if inside and ctx == "nm":
                     continue          # a linear grid given in wavelengths is another grid: creation inside is compared for linear units only
+                if ctx == "nm" and name == "Aggregate.get_electronic_Hamiltonian":
+                    continue          # the zero couplings are Python scalars, which the wavelength conversion refuses (ZeroDivisionError;
+                                      # zero ARRAY elements stay zero): a refused call, not a wrong value
                 c = {"kind": "transparent", "call": name, "ctx": ctx, "inputs_created": "inside" if inside else "outside"}
                 before = (m.get_current_units("energy"), m._in_eu_count)
                 try:
@@ -678,6 +690,63 @@ def run_transparency(chk, tier):
                         chk.violation("transparent:stored_state:" + name, "%s called inside energy_units(%r) (inputs created %s the context) stores a "
                                       "different state than the same call without a context - %s" % (name, ctx, c["inputs_created"], d), "monitor", c)
 
+
+
+def run_generators(chk, tier):
+    """(F) the package's public generators consumed under a units context: inside the caller's own loop body, after the loop, while a
+    started generator is kept alive, and after the context, the active units are the caller's - a generator must not hold a units
+    context open across its yields."""
+    import quantarhei as qr
+    m = qr.Manager()
+
+    def system():
+        with qr.energy_units("1/cm"):
+            mols = [qr.Molecule([0.0, 12000.0 + 100.0 * i]) for i in range(3)]
+            mo = qr.Mode(frequency=300.0)
+            mols[0].add_Mode(mo)
+            mo.set_nmax(0, 2)
+            mo.set_nmax(1, 2)
+            mo.set_HR(1, 0.1)
+        ag = qr.Aggregate(mols)
+        ag.build(mult=1)
+        return ag
+    gens = {"Aggregate.elstates": lambda ag: ag.elstates(mult=1), "Aggregate.allstates": lambda ag: ag.allstates(mult=1),
+            "Aggregate.elsignatures": lambda ag: ag.elsignatures(mult=1),
+            "Aggregate.vibsignatures": lambda ag: ag.vibsignatures((0, 1, 0)),
+            "Aggregate.elstates nested": lambda ag: ((a, b) for (a, _s) in ag.elstates(mult=1) for (b, _t) in ag.elstates(mult=1))}
+    for name, mk in sorted(gens.items()):
+        for ctx in (["1/cm", "eV"] if tier == "quick" else ["1/cm", "eV", "meV", "THz", "nm"]):
+            c = {"kind": "generator", "generator": name, "ctx": ctx}
+            try:
+                with contextlib.redirect_stdout(io.StringIO()):
+                    ag = system()
+                    base = m.get_current_units("energy")
+                    with qr.energy_units(ctx):
+                        want = m.get_current_units("energy")
+                        seen = [m.get_current_units("energy") for _item in mk(ag)]
+                        after_loop = m.get_current_units("energy")
+                        g = iter(mk(ag))
+                        next(g)
+                        held = m.get_current_units("energy")
+                        if hasattr(g, "close"):
+                            g.close()
+                        closed = m.get_current_units("energy")
+                    after = m.get_current_units("energy")
+                chk.count("generator:%s" % name)
+                chk.case(("generator", name, ctx), len(seen) >= 2)
+                bad = [("inside the caller's loop body", sorted(set(seen) - {want})) if set(seen) - {want} else None,
+                       ("after the loop", after_loop) if after_loop != want else None,
+                       ("while a started generator is kept alive", held) if held != want else None,
+                       ("after closing the generator", closed) if closed != want else None,
+                       ("after the context", after) if after != base else None]
+                bad = [b for b in bad if b]
+                if bad:
+                    chk.violation("generator:units:" + name, "%s consumed inside energy_units(%r): the active energy units are %s"
+                                  % (name, ctx, "; ".join("%s %r (the caller's: %r)" % (w, u, want) for w, u in bad)), "monitor", c)
+                    qr.set_current_units()
+                    m._in_eu_count, m._in_energy_units_context = 0, False
+            except Exception as e:
+                chk.violation("generator:exception:" + name, "generator monitor raised %r" % (e,), "monitor", c)
 
 
 def library_calls():
@@ -945,6 +1014,7 @@ def main():
     run_reuse(chk, args.tier)
     run_library_calls(chk, args.tier)
     run_transparency(chk, args.tier)
+    run_generators(chk, args.tier)
     run_input_types(chk, args.tier)
     chk.finish()
 
